@@ -379,10 +379,57 @@ def _sx_mod(a, b):
                     # rendering a symbolic number forks on its digits: do that only if the text is ever inspected
                     return SymStr.lazy(eng, lambda: _sx_mod_chars(a, b))
             return mk(eng, _sx_mod_chars(a, b))
+        if isinstance(b, dict) and tb is not dict and core.CUR is not None and '%(' in a:
+            # mapping with its own lookup (e.g. an interpolation wrapper): the looked-up values may be symbolic
+            for m in _FMT.finditer(a):
+                if m.group(1) is not None and type(b[m.group(1)]) in _SYMSET:
+                    return mk(core.CUR, _sx_mod_chars(a, b))
         return a % b
     if type(a) in (SymStr, SymTok):
-        raise Unmodelled('symbolic format string')
+        return _sx_mod_symfmt(a, b)
     return a % b
+
+
+def _sx_mod_symfmt(a, b):
+    """a symbolic format string: only %% and %(name)s with a mapping are modelled"""
+    cs = chars_of(a)
+    eng = a.eng
+
+    def isc(c, ch):
+        return (c == ch) if isinstance(c, str) else bool(SymBool(eng, c == ord(ch)))
+    out = []
+    i = 0
+    n = len(cs)
+    while i < n:
+        c = cs[i]
+        if not isc(c, '%'):
+            out.append(c)
+            i += 1
+            continue
+        if i + 1 >= n:
+            raise ValueError('incomplete format')
+        d = cs[i + 1]
+        if isc(d, '%'):
+            out.append('%')
+            i += 2
+            continue
+        if not isc(d, '('):
+            raise Unmodelled('symbolic format string with a conversion other than %% and %(name)s')
+        j = i + 2
+        name = []
+        while j < n and not isc(cs[j], ')'):
+            if not isinstance(cs[j], str):
+                raise Unmodelled('symbolic key name in format string')
+            name.append(cs[j])
+            j += 1
+        if j + 1 >= n + 0 and j >= n:
+            raise ValueError('incomplete format key')
+        if j + 1 >= n or not isc(cs[j + 1], 's'):
+            raise Unmodelled('symbolic format string with a conversion other than %(name)s')
+        v = b[''.join(name)]
+        out.extend(_fmt_arg('s', v) if type(v) in _SYMSET else str(v))
+        i = j + 2
+    return mk(eng, out)
 
 
 def _sx_fstr(*parts):
@@ -663,6 +710,24 @@ def _h_template_substitute(args, kw):
     return mk(core.CUR, out)
 
 
+import shlex as _shlex
+
+
+def _h_shlex_split(args, kw):
+    s0 = args[0] if args else kw.get('s')
+    if type(s0) in (SymStr, SymTok):
+        # documented rule for text without quotes, escapes or comments: split on runs of whitespace
+        eng = s0.eng
+        for c in chars_of(s0):
+            if not isinstance(c, str):
+                if SymBool(eng, z3.Or([c == ord(x) for x in '"\'\\#'])):
+                    raise Unmodelled('shlex.split of symbolic text with quotes/escapes/comments')
+            elif c in '"\'\\#':
+                raise Unmodelled('shlex.split of text with quotes/escapes/comments and symbolic parts')
+        return as_symstr(s0).split()
+    return _shlex.split(*args, **kw)
+
+
 _HANDLERS = {int.__new__: _h_int_new, float.__new__: _h_float_new, str.__new__: _h_str_new, ord: _h_ord, chr: _h_chr, int: _h_int, float: _h_float, str: _h_str, repr: _h_repr,
              isinstance: _h_isinstance, type: _h_type, hash: _h_hash, round: _h_round, bool: _h_bool,
              _os.path.splitext: _h_splitext, _re.sub: _h_re_sub}
@@ -753,7 +818,7 @@ def _sx_call(f, *args, **kw):
 
 _WRAPPER_DESCR = type(str.__add__)
 _FUNCTION = type(_sx_not)
-_HANDLERS_PY = {_os.path.splitext: _h_splitext, _re.sub: _h_re_sub, _string.Template.substitute: _h_template_substitute}
+_HANDLERS_PY = {_shlex.split: _h_shlex_split, _os.path.splitext: _h_splitext, _re.sub: _h_re_sub, _string.Template.substitute: _h_template_substitute}
 _METHOD = type(_string.Template('x').substitute)
 
 
